@@ -41,11 +41,20 @@ namespace OP2Utility::Stream
 
 	void MemoryWriter::SeekForward(uint64_t offset)
 	{
-		Seek(this->offset + offset);
+		// Note: this->offset <= streamSize always holds, so the subtraction cannot wrap (unlike this->offset + offset)
+		if (offset > streamSize - this->offset) {
+			throw std::runtime_error("Change in offset places write position outside bounds of buffer.");
+		}
+
+		this->offset += static_cast<std::size_t>(offset);
 	}
 
 	void MemoryWriter::SeekBackward(uint64_t offset)
 	{
-		Seek(this->offset - offset);
+		if (offset > this->offset) {
+			throw std::runtime_error("Change in offset places write position outside bounds of buffer.");
+		}
+
+		this->offset -= static_cast<std::size_t>(offset);
 	}
 }
